@@ -180,3 +180,86 @@ func (c *Ctx) acNormalize(op string, a, b *Term) *Term {
 	}
 	return acc
 }
+
+// linNormalize puts sums/differences into a canonical linear form  Σ coef·leaf + const
+// (coefficients modulo 2^w), so that offset arithmetic such as  j - (s+d) + s  and  j - d
+// become the same term.
+func (c *Ctx) linNormalize(op string, a, b *Term) *Term {
+	w := a.S.W
+	m := mask(w)
+	coefs := map[int]uint64{}
+	leaves := map[int]*Term{}
+	var cst uint64
+	var walk func(t *Term, k uint64)
+	walk = func(t *Term, k uint64) {
+		switch {
+		case t.IsConst():
+			cst = (cst + k*t.V) & m
+		case t.Op == "bvadd":
+			walk(t.Args[0], k)
+			walk(t.Args[1], k)
+		case t.Op == "bvsub":
+			walk(t.Args[0], k)
+			walk(t.Args[1], (-k)&m)
+		case t.Op == "bvneg":
+			walk(t.Args[0], (-k)&m)
+		case t.Op == "bvmul" && t.Args[1].IsConst():
+			walk(t.Args[0], (k*t.Args[1].V)&m)
+		case t.Op == "bvmul" && t.Args[0].IsConst():
+			walk(t.Args[1], (k*t.Args[0].V)&m)
+		default:
+			coefs[t.id] = (coefs[t.id] + k) & m
+			leaves[t.id] = t
+		}
+	}
+	walk(a, 1)
+	if op == "bvsub" {
+		walk(b, m) // -1
+	} else {
+		walk(b, 1)
+	}
+	var ids []int
+	for id, k := range coefs {
+		if k != 0 {
+			ids = append(ids, id)
+		}
+	}
+	sort.Ints(ids)
+	var pos, neg []*Term
+	for _, id := range ids {
+		k := coefs[id]
+		t := leaves[id]
+		switch {
+		case k == 1:
+			pos = append(pos, t)
+		case k == m:
+			neg = append(neg, t)
+		case k > m/2: // negative coefficient
+			neg = append(neg, c.mk(&Term{Op: "bvmul", S: t.S, Args: []*Term{t, c.Const((-k)&m, w)}}))
+		default:
+			pos = append(pos, c.mk(&Term{Op: "bvmul", S: t.S, Args: []*Term{t, c.Const(k, w)}}))
+		}
+	}
+	var acc *Term
+	for _, t := range pos {
+		if acc == nil {
+			acc = t
+		} else {
+			acc = c.mk(&Term{Op: "bvadd", S: a.S, Args: []*Term{acc, t}})
+		}
+	}
+	for _, t := range neg {
+		if acc == nil {
+			acc = c.mk(&Term{Op: "bvneg", S: a.S, Args: []*Term{t}})
+		} else {
+			acc = c.mk(&Term{Op: "bvsub", S: a.S, Args: []*Term{acc, t}})
+		}
+	}
+	if acc == nil {
+		return c.Const(cst, w)
+	}
+	if cst != 0 {
+		acc = c.mk(&Term{Op: "bvadd", S: a.S, Args: []*Term{acc, c.Const(cst, w)}})
+	}
+	return acc
+}
